@@ -45,6 +45,7 @@ func HRepeatSqli(unit int, holes int, k int, pre int, perByte int, slack int) {
 	c2 := vCost() - c0 - c1
 	vObserveStr("pre", p)
 	vObserveStr("unit", u)
+	vObserveStr("post", q)
 	vAssert(c1 <= perByte*len(s1)+slack, "IsSQLi cost per byte under the constant")
 	vAssert(c2 <= 2*c1+c1/4+slack, "doubling the input at most doubles the cost of IsSQLi")
 	vObserveStr("input", s1)
